@@ -30,7 +30,7 @@ def nextperm(l):
         l[lpos],l[rpos] = l[rpos],l[lpos]
         lpos += 1
         rpos -= 1
-    if k==-1:
+    if k<0:
         return l
     i = k+1
     while (l[i]<=l[k]): i+=1
